@@ -166,6 +166,19 @@ def Item.size : Item → Nat
   | .tapScript n => n + varintLen n
   | .tapControl n => n + varintLen n
 
+/-- what `Placeholder::satisfy_self` puts in the place of an item, by length: keys and hashes
+exactly, an ECDSA signature (DER + sighash byte) 9..72 bytes, a Schnorr signature of exactly
+the announced 64 / 65 bytes, `[1]`, `[]`, the leaf script and the control block exactly -/
+def Item.fits (it : Item) (len : Nat) : Bool :=
+  match it with
+  | .ph (.pubkey _ s) | .ph (.pubkeyHash _ s) => len + 1 == s && len < 0xfd
+  | .ph (.ecdsaSig _) | .ph (.ecdsaSigPkh _) => 9 ≤ len && len + 1 ≤ 73
+  | .ph (.schnorrSig _ s) | .ph (.schnorrSigPkh _ s) => len == s && (s == 64 || s == 65)
+  | .ph (.preimage _ _) | .ph .hashDissat => len == 32
+  | .ph .pushOne => len == 1
+  | .ph .pushZero => len == 0
+  | .tapScript n | .tapControl n => len == n
+
 /-- `util::witness_size(template)` -/
 def templateSize (t : List Item) : Nat := (t.map Item.size).sum + varintLen t.length
 
